@@ -206,13 +206,17 @@ class World:
             c.entries = []
 
     def _fetch_uid(self, val):
-        v = getattr(val, 'value', None)
+        v = getattr(val, '_value', None)
+        if v is None:
+            v = getattr(val, 'value', None)
         if v is None and hasattr(val, 'get_value'):
             v = val.get_value()
         return getattr(v, 'value', None)
 
     def _fetch_flags(self, val):
-        v = getattr(val, 'value', None)
+        v = getattr(val, '_value', None)
+        if v is None:
+            v = getattr(val, 'value', None)
         if v is None and hasattr(val, 'get_value'):
             try:
                 v = val.get_value()
